@@ -56,7 +56,9 @@ class RecorderProp(Prop):
     def features(self, case, impl):
         out = ['cassette:' + case.get('cassette', 'memory')]
         for run, r in zip(case['runs'], impl):
-            if run['run'] == 'op':
+            if run['run'] == 'foreign':
+                out.append('foreign-recording:%s-duration' % ('with' if run.get('duration', True) else 'without'))
+            elif run['run'] == 'op':
                 out.append('op:' + r['end'][0])
                 out.append('log:' + '/'.join(k for k, _ in r['log']))
                 if r.get('saved') and 'meta' in r['saved']:
